@@ -10,16 +10,19 @@ import json
 CLAIM = dict(
     text=("Machine-checked proof (Lean 4) over ALL operation histories of a BitField (any hierarchy depth, sibling scopes "
           "re-using names, fixed/automatic positions and lengths, tags, any interleaving of add_field / __call__ / "
-          "assign_fields, any bit-field length): an invariant of the field tree (co-presentable fields have distinct "
-          "names and, once positioned, disjoint non-empty ranges inside the bit field; every length covers the largest "
-          "value given; tags are closed under requirements) is established by the empty bit field and preserved by "
-          "every operation, including assign_fields that fail half-way; from it: read-back of every field from the key "
-          "at its reported position, mask = union of the present fields' bits (also per tag), two different complete "
-          "assignments never match each other's key/mask, explicit overlapping or overflowing definitions are rejected. "
-          "Tied to rig/bitfield.py by exact correspondence of histories and full tree dumps, the scan bound and the "
-          "max_value default regenerated from the source on every run, and the Lean specification predicates evaluated "
-          "on the implementation's trees/keys/masks.  Completeness (assignment succeeds when nothing is positioned and "
-          "co-present widths fit) is checked per case by the Lean predicate; it is proved only as stated in the note."),
+          "assign_fields with arbitrary instance values, any bit-field length): an invariant of the field tree "
+          "(co-presentable fields have distinct names and, once positioned, disjoint non-empty ranges inside the bit "
+          "field; every length covers the largest value given) is established by the empty bit field and preserved by "
+          "every operation, including an assign_fields that raises half-way.  From it: any two fields present in one "
+          "instance are disjoint and in range; __call__ rejects values wider than a known length; explicit definitions "
+          "that overflow or overlap a co-presentable positioned field are rejected; every present field's value is read "
+          "back from get_value() at the position get_location_and_length reports; get_mask() / get_mask(tag) have exactly "
+          "the bits of the present (tagged) fields; two instances that differ on a commonly present field never match "
+          "each other's key/mask.  Tied to rig/bitfield.py by exact correspondence of histories with full tree dumps after "
+          "every mutating call, the scan bound and max_value default regenerated from the source on every run, and the "
+          "Lean specification predicates evaluated on the implementation's own trees, keys, masks and positions.  "
+          "Validated per case by the Lean predicates but not proved: tag closure, 'every field has a position after a "
+          "successful assign_fields', value <= max_value for instances, and the completeness clause."),
     design="3/C08",
     note=("Completeness clause: the unrepaired tree scans range(0, length - width) and can never use the top bit "
           "(fixes/c08-assign-scan-bound.diff).  Beyond that, first-fit placement is NOT complete when fields of "
@@ -33,7 +36,8 @@ CLAIM = dict(
 
 THEOREMS = ["max_value_default", "inv_init", "inv_addField", "inv_call", "inv_assignFields", "reachable_inv",
             "assign_disjoint", "enabled_disjoint", "scope_unique", "wide_enough", "call_rejects_wide",
-            "reject_explicit_overflow", "reject_explicit"]
+            "reject_explicit_overflow", "reject_explicit", "valuesFit_of_le_max", "readback", "mask_exact",
+            "mask_exact_tag", "orthogonal"]
 
 RULE = ("histories of 6-40 operations generated against the running implementation (mostly valid: names a-h, values 0-3 "
         "that open sibling scopes, lengths None/1-5, explicit positions incl. the top bit, tags, assign_fields in the middle "
